@@ -235,6 +235,55 @@ class C03Unit(object):
         out['psk'] = self.getter_calls(node.body, ctree, versioned=True)
         return out
 
+    # ---------------------------------------------------------------- repairs present in this tree?
+    def repair_flags(self, conn_tree, conn_src):
+        """Booleans telling which of the small repairs proposed for the C03 findings (proposed_fixes/C03-*.diff,
+        C19-4.diff) are present in the tree under test; the model branches on them so that it describes
+        the tree with or without each repair.  Each probe looks for the repaired construct inside the one
+        function it belongs to."""
+        def src(name):
+            return ast.get_source_segment(conn_src, find_func(conn_tree, 'TLSConnection', name)) or ''
+
+        def ems_test_mentions_13():
+            f = find_func(conn_tree, 'TLSConnection', '_clientGetServerHello')
+            for node in ast.walk(f):
+                if isinstance(node, ast.If):
+                    t = ast.unparse(node.test)
+                    if 'requireExtendedMasterSecret' in t:
+                        return '(3, 4)' in t
+            raise Refuse('_clientGetServerHello: requireExtendedMasterSecret test not found')
+
+        def server_ems_guarded():
+            f = find_func(conn_tree, 'TLSConnection', '_handshakeServerAsyncHelper')
+            for node in ast.walk(f):
+                if isinstance(node, ast.If) and 'extended_master_secret' in ast.unparse(node.test) \
+                        and 'useExtendedMasterSecret' not in ast.unparse(node.test):
+                    return '(3, 0)' in ast.unparse(node.test)
+            raise Refuse('_handshakeServerAsyncHelper: extended_master_secret test not found')
+
+        def client_ems_guarded():
+            f = find_func(conn_tree, 'TLSConnection', '_handshakeClientAsyncHelper')
+            for node in ast.walk(f):
+                if isinstance(node, ast.If) and ast.unparse(node.test) == \
+                        'serverHello.getExtension(ExtensionType.extended_master_secret)':
+                    return '(3, 0)' in ast.unparse(node)
+            raise Refuse('_handshakeClientAsyncHelper: extended_master_secret test not found')
+        cke = src('_clientKeyExchange')
+        return [
+            ('fix_dh_size', 'dhGroupSize' in cke and 'settings.minKeySize' in cke),
+            ('fix_tls13_client_key', '_check_certchain_with_settings' in src('_serverTLS13Handshake')),
+            ('fix_eddsa_server', 'Ed25519' in src('_server_select_certificate')),
+            ('fix_eddsa_client', 'Ed25519' in cke),
+            ('fix_sigalg_tls12', 'not valid_sig_algs' in cke),
+            ('fix_sigalg_tls13', 'signature_scheme is None' in src('_clientTLS13Handshake')),
+            ('fix_ems_sslv3_server', server_ems_guarded()),
+            ('fix_ems_sslv3_client', client_ems_guarded()),
+            ('fix_internal_error_srp', 'TLSInternalError' in src('_serverSRPKeyExchange')),
+            ('fix_internal_error_anon', 'TLSInternalError' in src('_serverAnonKeyExchange')),
+            ('fix_req_ems_tls13', ems_test_mentions_13()),
+            ('fix_sigalg_assert', 'assert sig_list' not in src('_clientSendClientHello')),
+        ]
+
     # ---------------------------------------------------------------- main
     def tables(self):
         consts = import_repo('tlslite.constants')
@@ -242,7 +291,8 @@ class C03Unit(object):
         with open(self.consts_path) as fh:
             ctree = ast.parse(fh.read())
         with open(self.conn_path) as fh:
-            conn_tree = ast.parse(fh.read())
+            conn_src = fh.read()
+        conn_tree = ast.parse(conn_src)
         CS = consts.CipherSuite
         t = {}
         t['filter'], t['tls13_kx'] = self.filter_tables(ctree, hs)
@@ -253,6 +303,7 @@ class C03Unit(object):
                     names.append(lst)
         t['list_names'] = names
         t['lists'] = {n: list(getattr(CS, n)) for n in names}
+        t['flags'] = self.repair_flags(conn_tree, conn_src)
         t['client_order'] = self.client_order(conn_tree, ctree)
         t['server_order'] = self.server_order(conn_tree, ctree)
         t['names'] = {k: list(getattr(hs, v)) for k, v in NAME_TABLES.items()}
@@ -319,6 +370,9 @@ class C03Unit(object):
         L.append('(* more_sig_schemes codes -> scheme id: %s *)' % ', '.join('%d=%s' % (i, n) for i, n, _ in t['more_sig']))
         L.append('Definition more_sig_table : list (Z * Z) := [%s].' % '; '.join(
             '(%d, %d)' % (i, v[0] * 256 + v[1]) for i, n, v in t['more_sig'] if v))
+        L.append('(* which of the proposed small repairs are present in this tree (see repair_flags) *)')
+        for k, v in t['flags']:
+            L.append('Definition %s : bool := %s.' % (k, 'true' if v else 'false'))
         L.append('Definition scsv_renego : Z := %d.' % t['scsv'])
         L.append('Definition scsv_fallback : Z := %d.' % t['fallback_scsv'])
         return '\n'.join(L)
